@@ -70,6 +70,14 @@ Seeds == {
   [id |-> "form_multi",  doc |-> Request("POST", "/form-multipart-enctype-post-method", "HTTP/1.1",
                               <<Host, Hdr("Content-Type", "multipart/form-data; boundary=b1")>>, MultipartBody)],
   [id |-> "upload_init", doc |-> Request("POST", "/file-upload/initiate?name=a.bin&lastModified=1&size=9", "HTTP/1.1", <<Host>>, NoBody)],
+  [id |-> "upload_evil_name", doc |-> Request("POST", "/form-multipart-enctype-post-method", "HTTP/1.1",
+                              <<Host, Hdr("Content-Type", "multipart/form-data; boundary=b1")>>,
+                              Tk("body", "--b1\r\nContent-Disposition: form-data; name=\"f\"; filename=\"../outside/evil.txt\"\r\nContent-Type: text/plain\r\n\r\nowned\r\n--b1--\r\n"))],
+  [id |-> "upload_init_evil", doc |-> Request("POST", "/file-upload/initiate?name=../outside/evil.bin&lastModified=1&size=9", "HTTP/1.1", <<Host>>, Tk("body", "012345678"))],
+  [id |-> "put_new",     doc |-> Request("PUT", "/new.txt", "HTTP/1.1", <<Host, Hdr("Content-Length", "4")>>, Tk("body", "data"))],
+  [id |-> "post_dir",    doc |-> Request("POST", "/docs/", "HTTP/1.1", <<Host, Hdr("Content-Type", "application/octet-stream")>>, Tk("body", "blob"))],
+  [id |-> "delete_dir",  doc |-> Request("DELETE", "/docs/", "HTTP/1.1", <<Host>>, NoBody)],
+  [id |-> "patch_file",  doc |-> Request("PATCH", "/a.txt", "HTTP/1.1", <<Host, Hdr("Content-Type", "text/plain")>>, Tk("body", "patched"))],
   [id |-> "put_file",    doc |-> Request("PUT", "/a.txt", "HTTP/2.0", <<Host, Hdr("Content-Type", "text/plain")>>, Tk("body", "new content"))],
   [id |-> "delete_file", doc |-> Request("DELETE", "/a.txt", "HTTP/1.1", <<Host>>, NoBody)],
   [id |-> "trace_star",  doc |-> Request("TRACE", "*", "HTTP/1.1", <<Host>>, NoBody)],
